@@ -1,47 +1,45 @@
-import json,sys
-sys.path.insert(0,'/verif/driver')
+#!/usr/bin/env python3
+"""Regenerate /verif/MANIFEST.json from driver/props.py."""
+import json, os, sys
+HERE = os.path.dirname(os.path.abspath(__file__))
+ROOT = os.path.dirname(HERE)
+sys.path.insert(0, HERE)
 import props
-LEVEL = {
- "C01": ("exploration","Differential runtime monitoring: the JIT-compiled program and an independent reference interpreter are run on the same generated well-typed programs and boundary/random inputs; return value and ordered host-call log must agree. Sampled, not exhaustive: held on the programs and inputs observed.","§4 C01"),
- "C02": ("exploration","Differential runtime monitoring of aggregate programs: every leaf field is emitted through logging host functions after each mutation and compared with the interpreter's value-semantics model; the drop ledger and allocation balance watch the generated clone/drop/eq code. Sampled programs and layouts.","§4 C02"),
- "C03": ("exploration","Online monitor at the host boundary: every instance of a drop-tracked registered type carries an id and a canary; the ledger flags double drop, drop of garbage, read after drop and leaks the moment they happen, and a counting allocator checks that the heap balance returns to zero after each call. Sampled programs x steering inputs.","§4 C03"),
- "C08": ("exploration","Trace monitor: the ordered log of host calls (function, argument values) made during one call is compared event by event with the reference interpreter's log for programs whose sub-expressions are effectful host calls. Sampled programs.","§4 C08"),
-}
-NOTE = {
- "C01": "Trusted base: rotogen's interpreter and printer (harness/rvmon/src/rg); programs are well-typed by construction. JIT code is only observed through results and host calls.",
- "C02": "Trusted base as C01; NaN-free float equality is IEEE on both sides. Layout signatures are sampled, not enumerated.",
- "C03": "Trusted base: the ledger (harness/rvmon/src/host.rs) and counting allocator (alloc.rs). Known-defect patterns are excluded from the random stream and exercised by corpus witnesses (KNOWN_FINDINGS.txt).",
- "C08": "Trusted base as C01; only effects that reach a host function are visible.",
-}
-TECH = {
- "C01": "differential runtime monitoring against a reference interpreter (generated programs, boundary inputs)",
- "C02": "differential runtime monitoring + drop ledger + allocation balance on generated aggregate programs",
- "C03": "online drop-ledger monitor (per-instance ids, canaries) + allocation-balance monitor at the host boundary",
- "C08": "host-call trace monitor compared with reference interpreter trace",
-}
-checks=[]
+
+checks = []
 for pid in sorted(props.PROPS):
-    cat,text,ref = LEVEL[pid]
+    sp = props.PROPS[pid]
     checks.append({
-      "property_id": pid,
-      "quick_cmd": f"./check {pid} --tier quick",
-      "thorough_cmd": f"./check {pid} --tier thorough",
-      "evidence_file": f"evidence/{pid}.json",
-      "replay_cmd_template": f"./check {pid} --replay {{path}}",
-      "engine": "rvmon",
-      "level_claimed": {"category": cat, "text": text, "design_ref": ref},
-      "level_note": NOTE[pid],
-      "technique": TECH[pid],
+        "property_id": pid,
+        "quick_cmd": f"./check {pid} --tier quick",
+        "thorough_cmd": f"./check {pid} --tier thorough",
+        "evidence_file": f"evidence/{pid}.json",
+        "replay_cmd_template": f"./check {pid} --replay {{path}}",
+        "engine": "rvmon",
+        "level_claimed": {"category": sp.get("level", "exploration"), "text": sp["claim"], "design_ref": sp["design_ref"]},
+        "level_note": sp["level_note"],
+        "technique": sp["technique"],
     })
-allp=[json.loads(l)['id'] for l in open('/verif/properties.jsonl')]
-na=[{"property_id":p,"reason":"monitor not built yet in this revision of /verif (planned, see DESIGN.md §4); runtime monitoring applies to it"} for p in allp if p not in props.PROPS]
-m={
- "version":1,
- "setup_cmd":"./check --setup",
- "hooks":{"guard":"verif-hooks","enable":"cargo feature `verif-hooks` of the roto crate, switched on by the harness' path dependency (harness/rvmon/Cargo.toml)","baseline_off_cmd":"cd /repo && cargo nextest run --workspace --no-fail-fast --offline","source_commits":["7097985"],"add_only":True},
- "engines":[{"name":"rvmon","path":"harness/rvmon","serves_properties":sorted(props.PROPS),"kind_free_text":"Rust worker binary (program generator, reference interpreter, host-side monitors) supervised by the python driver ./check"}],
- "checks":checks,
- "not_applicable":na,
- "notes":"Every check rebuilds the harness against /repo's working tree (cargo fingerprinting) before running. Exit 2 = inconclusive (never a VIOLATION line).",
+allp = [json.loads(l)["id"] for l in open(os.path.join(ROOT, "properties.jsonl"))]
+na = [{"property_id": p, "reason": props.NOT_YET.get(p, "monitor not built yet in this revision of /verif (planned, see DESIGN.md §4); runtime monitoring applies to it")}
+      for p in allp if p not in props.PROPS]
+m = {
+    "version": 1,
+    "setup_cmd": "./check --setup",
+    "hooks": {
+        "guard": "verif-hooks",
+        "enable": "cargo feature `verif-hooks` of the roto crate, switched on by the harness' path dependency (harness/rvmon/Cargo.toml)",
+        "baseline_off_cmd": "cd /repo && cargo nextest run --workspace --no-fail-fast --offline",
+        "source_commits": props.HOOK_COMMITS,
+        "add_only": True,
+    },
+    "engines": [{"name": "rvmon", "path": "harness/rvmon", "serves_properties": sorted(props.PROPS),
+                 "kind_free_text": "Rust worker binary (program generator, reference interpreter, host-side monitors, "
+                                   "sanitizer builds) supervised by the python driver ./check"}],
+    "checks": checks,
+    "not_applicable": na,
+    "notes": "Every check rebuilds the harness against /repo's working tree (cargo fingerprinting) before running. "
+             "Exit 2 = inconclusive (never a VIOLATION line).",
 }
-json.dump(m,open('/verif/MANIFEST.json','w'),indent=1)
+json.dump(m, open(os.path.join(ROOT, "MANIFEST.json"), "w"), indent=1)
+print("MANIFEST.json:", len(checks), "checks,", len(na), "not yet claimed")
